@@ -200,6 +200,60 @@ def _strict(obj: Any) -> Any:
     return obj
 
 
+ATHERIS_RUNS = {"C09": 20000, "C01": 20000, "C02": 20000, "C03": 5000, "C04": 5000}
+"""libFuzzer runs per process for the coverage-guided stage (tools/atheris_stage.py)."""
+ATHERIS_PROCS = 8
+
+
+def _coverage_guided_stage(pid: str, seed: int, budget_override: int | None) -> dict[str, Any]:
+    """Run tools/atheris_stage.py in ATHERIS_PROCS processes; never a harness error if atheris is missing."""
+    import subprocess  # pylint: disable=import-outside-toplevel
+    import tempfile  # pylint: disable=import-outside-toplevel
+
+    probe = subprocess.run([sys.executable, "-c", "import atheris, importlib.metadata as m; print(m.version('atheris'))"],
+                           capture_output=True, text=True, check=False)
+    if probe.returncode != 0:
+        return {"skipped": "atheris is not importable (setup.sh installs it from the wheelhouse into .deps)", "_violations": []}
+    runs = budget_override or ATHERIS_RUNS[pid]
+    out: dict[str, Any] = {
+        "tool": f"atheris {probe.stdout.strip()} (libFuzzer) driving the Hypothesis strategy through fuzz_one_input",
+        "processes": ATHERIS_PROCS, "runs_per_process": runs, "libfuzzer_seeds": [], "cases_at_least": 0,
+        "nontrivial_at_least": 0, "labels": {}, "_violations": [],
+    }
+    procs = []
+    with tempfile.TemporaryDirectory(prefix="vf_ath_") as tmp:
+        for k in range(ATHERIS_PROCS):
+            fseed = seed * 100 + k + 1
+            stats_file = os.path.join(tmp, f"stats{k}.json")
+            env = dict(os.environ, VERIF_ATHERIS_STATS=stats_file)
+            cmd = [sys.executable, str(ROOT / "tools" / "atheris_stage.py"), pid, f"-runs={runs}", f"-seed={fseed}",
+                   "-max_len=8192", "-len_control=0", "-timeout=600"]
+            procs.append((fseed, stats_file, subprocess.Popen(cmd, env=env, stdout=subprocess.PIPE, stderr=subprocess.STDOUT,
+                                                              text=True, cwd=tmp)))
+            out["libfuzzer_seeds"].append(fseed)
+        for fseed, stats_file, proc in procs:
+            try:
+                text, _ = proc.communicate(timeout=5400)
+            except subprocess.TimeoutExpired:
+                proc.kill()
+                raise HarnessError(f"coverage-guided stage (seed {fseed}) exceeded its wall-clock guard (inconclusive)") from None
+            st: dict[str, Any] = {}
+            if os.path.exists(stats_file):
+                st = json.loads(Path(stats_file).read_text())
+            out["cases_at_least"] += st.get("cases", 0)
+            out["nontrivial_at_least"] += st.get("nontrivial", 0)
+            out["instrumented"] = st.get("instrumented", [])
+            for lab, n in st.get("labels", {}).items():
+                out["labels"][lab] = out["labels"].get(lab, 0) + n
+            if proc.returncode == 1 and "violation" in st:
+                out["_violations"].append(st["violation"])
+            elif proc.returncode != 0:
+                print(text[-3000:], file=sys.stderr)
+                raise HarnessError(f"coverage-guided stage (seed {fseed}) ended with exit status {proc.returncode}")
+    out["violations"] = len(out["_violations"])
+    return out
+
+
 def write_evidence(pid: str, mod: Any, tier: str, seed: int, stats: Stats, wall: float,
                    violations: int, extra: dict[str, Any]) -> None:
     total = max(1, stats.evaluations)
@@ -341,6 +395,13 @@ def cmd_check(pid: str, tier: str, seed: int, budget_override: int | None) -> in
             path = _save_replay(pid, f"{tier}-seed{r['seed']}.json", r["fail"]["case"], r["fail"]["violations"])
             violations.append((path, r["fail"]["violations"]))
 
+    # 3. coverage-guided stage (thorough tier; properties whose cases run without the event loop)
+    guided: dict[str, Any] | None = None
+    if tier == "thorough" and pid in ATHERIS_RUNS and not violations and not any(r.get("error") for r in results):
+        guided = _coverage_guided_stage(pid, seed, budget_override)
+        for item in guided.pop("_violations"):
+            violations.append((Path(item["replay"]), item["violations"]))
+
     wall = time.monotonic() - t0
     extra = {
         "known_findings_open": [f["id"] for f in open_findings],
@@ -349,6 +410,8 @@ def cmd_check(pid: str, tier: str, seed: int, budget_override: int | None) -> in
         "worker_seeds": [j[2] for j in jobs],
         "budget_per_worker": budget,
     }
+    if guided is not None:
+        extra["coverage_guided"] = guided
     if errors:
         print(errors[0], file=sys.stderr)
         raise HarnessError("exploration raised an unexpected exception (see traceback above)")
